@@ -144,9 +144,7 @@ def post_ref(ctx, fn, oracle, max_n):
         c = call.case()
         args, kw = c["args"], c["kwargs"]
         ctx.count("contract." + fn)
-        if call.exc is not None:
-            ctx.count("library_raised(C14)")
-            return
+        raised = call.exc
         if _size(args) > max_n:
             ctx.count("skipped_large")
             return
@@ -176,6 +174,20 @@ def post_ref(ctx, fn, oracle, max_n):
         if margin < MARGIN:
             ctx.count("skipped_near_threshold")
             ctx.hist("skipped_near_threshold", fn)
+            return
+        if raised is not None:
+            if isinstance(raised, ValueError) and _is_nan(want):
+                ctx.count("library_raised_where_definition_undefined")
+                return
+            if _is_nan(want):
+                ctx.count("definition_undefined(not judged)")
+                return
+            ctx.ev()
+            ctx.violation("C04/%s/raises/%s" % (fn, type(raised).__name__), "raises", fn,
+                          "%s raised %s where the documented definition gives %s" % (
+                              fn, type(raised).__name__, short(want, 80)), c,
+                          witness={"fn": fn, "args": args, "kwargs": kw,
+                                   "exception": repr(raised), "definition": want})
             return
         ctx.ev()
         ctx.hist("compared", fn)
